@@ -17,12 +17,13 @@ import (
 )
 
 type halter struct {
-	name      string
-	released  int // step at which it was let go (0 = not yet)
-	maxBefore int // deepest depth the reader had taken when it was released
-	d1Before  bool
-	done      bool
-	pv        search.PV
+	name        string
+	released    int // step at which it was let go (0 = not yet)
+	maxBefore   int // deepest depth the reader had taken when it was released
+	d1Before    bool
+	endedBefore bool // the analysis had already ended by itself when the halt was requested
+	done        bool
+	pv          search.PV
 }
 
 // SessionC15 drives Iterative.Launch / Handle.Halt / TimeControl directly.
@@ -201,6 +202,8 @@ func SessionC15(t *tape.Tape) *core.RunResult {
 						hl.released = steps
 						hl.maxBefore = maxRead()
 						hl.d1Before = d1Complete
+						read()
+						hl.endedBefore = closed
 						haltRequested = true
 						res.Fault("halt@step")
 						if !d1Complete {
@@ -236,8 +239,9 @@ func SessionC15(t *tape.Tape) *core.RunResult {
 				default:
 				}
 				_ = searchEnded
-				if hl.pv.Depth < 1 && !closedOrEnded(out, &closed, &got, start, &closedAt) {
-					return fail("halt-returned-before-depth-1", "Halt() returned %v before the first iteration was complete and while the search was still running", hl.pv)
+				closedOrEnded(out, &closed, &got, start, &closedAt)
+				if hl.pv.Depth < 1 && !hl.endedBefore {
+					return fail("halt-returned-before-depth-1", "Halt() returned %v (no completed iteration) although the analysis was still running when the halt was requested (first iteration complete at that moment: %v)", hl.pv, hl.d1Before)
 				}
 				if hl.pv.Depth < hl.maxBefore {
 					return fail("halt-returned-shallower-result", "Halt() returned depth %d although depth %d had been reported before the halt was requested", hl.pv.Depth, hl.maxBefore)
